@@ -40,7 +40,7 @@ from stdnum.exceptions import *
 def _to_base10(number):
     """Prepare the number to its base10 representation."""
     return ''.join(
-        str(int(x, 36)) for x in number)
+        str(int(x, 36)) for x in number.encode('ascii').decode('ascii'))
 
 
 def checksum(number):
